@@ -275,3 +275,98 @@ theorem trace_obs (env : Env) (flt : HogFilter) (es : List Ev) (m : MS) (k : Nat
         exact ih m1 k h (by simpa using hk)
 
 end Pyham.Sax
+
+/-! ### the first pass of a filtered load -/
+namespace Pyham.Sax
+
+theorem frun_cons (f : Filter) (e : Ev) (es : List Ev) (s : FS) :
+    frun f (e :: es) s = (fstep f s e).bind fun s' => frun f es s' := by
+  simp only [frun, bind]
+
+mutual
+/-- inside an open group every call succeeds: references are collected, the flag is raised by a selected gene -/
+theorem f_elem (f : Filter) : (e : Elem) → (gids hids : List String) → (cur : Option String) → (d : Nat) →
+    (refs : List String) → (add : Bool) → (rest : List Ev) →
+    frun f (events e ++ rest) { gids := gids, hids := hids, cur := cur, depth := d + 1, refs := refs, add := add } =
+      frun f rest { gids := gids, hids := hids, cur := cur, depth := d + 1, refs := refs ++ refsOf e,
+                    add := add || (refsOf e).any gids.contains }
+  | .ref id loft, gids, hids, cur, d, refs, add, rest => by
+    simp [events, frun_cons, fstep, Except.bind, refsOf]
+  | .score _ _, gids, hids, cur, d, refs, add, rest => by
+    simp [events, frun_cons, fstep, Except.bind, refsOf]
+  | .prop _ _, gids, hids, cur, d, refs, add, rest => by
+    simp [events, frun_cons, fstep, Except.bind, refsOf]
+  | .pg pgid its, gids, hids, cur, d, refs, add, rest => by
+    simp only [events, List.cons_append, List.append_assoc, frun_cons, fstep, Except.bind, refsOf]
+    rw [f_elems f its gids hids cur d refs add]
+    simp [frun_cons, fstep, Except.bind]
+  | .og hid og its, gids, hids, cur, d, refs, add, rest => by
+    simp only [events, List.cons_append, List.append_assoc, frun_cons, fstep, refsOf]
+    simp only [Nat.add_one_ne_zero, beq_iff_eq, if_false, Except.bind]
+    rw [f_elems f its gids hids cur (d + 1) refs add]
+    simp [frun_cons, fstep, Except.bind]
+theorem f_elems (f : Filter) : (es : List Elem) → (gids hids : List String) → (cur : Option String) → (d : Nat) →
+    (refs : List String) → (add : Bool) → (rest : List Ev) →
+    frun f (eventsL es ++ rest) { gids := gids, hids := hids, cur := cur, depth := d + 1, refs := refs, add := add } =
+      frun f rest { gids := gids, hids := hids, cur := cur, depth := d + 1, refs := refs ++ refsOfL es,
+                    add := add || (refsOfL es).any gids.contains }
+  | [], gids, hids, cur, d, refs, add, rest => by simp [eventsL, refsOfL]
+  | e :: es, gids, hids, cur, d, refs, add, rest => by
+    simp only [eventsL, List.append_assoc, refsOfL]
+    rw [f_elem f e gids hids cur d refs add, f_elems f es gids hids cur d _ _]
+    simp [List.any_append, Bool.or_assoc]
+end
+
+mutual
+theorem f_top (f : Filter) : (e : Elem) → (gids hids : List String) → (rest : List Ev) → noTopRef e = true →
+    frun f (events e ++ rest) { gids := gids, hids := hids } =
+      (filterTop f e (gids, hids)).bind fun r => frun f rest { gids := r.1, hids := r.2 }
+  | .ref _ _, gids, hids, rest, h => by simp [noTopRef] at h
+  | .score _ _, gids, hids, rest, _ => by simp [events, frun_cons, fstep, Except.bind, filterTop]
+  | .prop _ _, gids, hids, rest, _ => by simp [events, frun_cons, fstep, Except.bind, filterTop]
+  | .pg pgid its, gids, hids, rest, h => by
+    simp only [noTopRef] at h
+    simp only [events, List.cons_append, List.append_assoc, frun_cons, fstep, Except.bind, filterTop]
+    rw [f_tops f its gids hids _ h]
+    cases filterTops f its (gids, hids) with
+    | error e => rfl
+    | ok r => simp [Except.bind, frun_cons, fstep]
+  | .og hid og its, gids, hids, rest, _ => by
+    simp only [events, List.cons_append, List.append_assoc, frun_cons, fstep, filterTop]
+    cases hid with
+    | none => simp [Except.bind]
+    | some i =>
+      simp only [beq_self_eq_true, if_true, Except.bind, Bool.false_or]
+      rw [f_elems f its gids hids (some i) 0 [] (f.hogIds.contains i)]
+      simp only [List.nil_append, frun_cons, fstep, Nat.zero_add]
+      by_cases ha : (i ∈ f.hogIds ∨ ∃ x, x ∈ refsOfL its ∧ x ∈ gids)
+      · simp [ha, Except.bind]
+      · simp [ha, Except.bind]
+theorem f_tops (f : Filter) : (es : List Elem) → (gids hids : List String) → (rest : List Ev) → noTopRefL es = true →
+    frun f (eventsL es ++ rest) { gids := gids, hids := hids } =
+      (filterTops f es (gids, hids)).bind fun r => frun f rest { gids := r.1, hids := r.2 }
+  | [], gids, hids, rest, _ => by simp [eventsL, filterTops, Except.bind]
+  | e :: es, gids, hids, rest, h => by
+    simp only [noTopRefL, Bool.and_eq_true] at h
+    simp only [eventsL, List.append_assoc, filterTops, bind]
+    rw [f_top f e gids hids _ h.1]
+    cases hr : filterTop f e (gids, hids) with
+    | error err => simp [Except.bind]
+    | ok r =>
+      simp only [Except.bind]
+      exact f_tops f es r.1 r.2 rest h.2
+end
+
+/-- the first-pass machine run over the events of the <groups> section selects exactly what the recursive first pass
+    selects (gene ids and family ids, in the same order), and is back in its initial control state -/
+theorem f_groups (f : Filter) (groups : List Elem) (gids : List String) (h : noTopRefL groups = true) :
+    frun f (eventsL groups) { gids := gids } =
+      (filterTops f groups (gids, [])).map fun r => { gids := r.1, hids := r.2 } := by
+  have h0 := f_tops f groups gids [] [] h
+  simp only [List.append_nil] at h0
+  rw [h0]
+  cases filterTops f groups (gids, []) with
+  | error e => rfl
+  | ok r => simp [Except.bind, Except.map, frun]
+
+end Pyham.Sax
